@@ -724,6 +724,13 @@ func (k *KDC) issue(a issueArgs) []byte {
 			if a.kind != "as" {
 				ep.StartTime = &t
 			}
+		case "authtime-year":
+			// the KDC's clock is in another era: authtime (and starttime) on 1 January of that year
+			t := time.Date(int(pt.Arg), 1, 1, 0, 0, 0, 0, time.UTC)
+			ep.AuthTime = t
+			if a.kind != "as" {
+				ep.StartTime = &t
+			}
 		case "other-key":
 			replyKey = KeyOf(k.Seed, k.Realm, "stranger", 9, int(replyKey.Etype))
 		case "other-usage":
